@@ -317,7 +317,9 @@ class FuncVerifier:
             handler.append(st.copy(simp_not(cond)))
             st.pc = simp_and(st.pc, cond)
             return
-        self.oblige(st, 'safety[%s]' % what, cond, node)
+        if not self.in_slice():
+            # (slice mode decides site obligations only: run-time-error freedom of the enclosing code is not its subject)
+            self.oblige(st, 'safety[%s]' % what, cond, node)
         # after a safety check passes, execution continues only if cond holds
         if not self.binders:
             self.add_fact(st, cond)
@@ -615,11 +617,10 @@ class FuncVerifier:
                 return cand
         if self.module and name in self.module.imports and self.module.imports[name] in self.E.sc.globals:
             return self.module.imports[name]
-        if self.module is None:
-            # sidecar context (ghost axioms, contracts of externals): a declared global with that last component
-            cands = [k for k in self.E.sc.globals if k.endswith('.' + name)]
-            if len(cands) == 1:
-                return cands[0]
+        # sidecar context (ghost axioms, contract clauses): a declared global with that last component
+        cands = [k for k in self.E.sc.globals if k.endswith('.' + name)]
+        if len(cands) == 1 and (self.module is None or name not in self.module.functions):
+            return cands[0]
         return None
 
     def global_value(self, name, st):
@@ -1143,7 +1144,30 @@ class FuncVerifier:
     # ---- calls
     def ev_Call(self, node, st, spec):
         from .calls import eval_call
-        return eval_call(self, node, st, spec)
+        if not (self.in_slice() and not spec and not self.binders and not self.bound_env):
+            return eval_call(self, node, st, spec)
+        # slice mode: a call that cannot be resolved / has no contract is an unknown callee: arbitrary result, arbitrary
+        # effect on the heap (subject to the global invariants), after its arguments have been evaluated
+        no, snap_env, snap_heap, snap_pc = len(self.obligations), dict(st.env), dict(st.heap), st.pc
+        try:
+            return eval_call(self, node, st, spec)
+        except (Unsupported, EngineError) as e:
+            del self.obligations[no:]
+            st.env, st.heap, st.pc = snap_env, snap_heap, snap_pc
+            from .slicing import havoc_state, site_nodes
+            if any(n is node for _, _, n in site_nodes(self, ast.Expr(value=node))):
+                raise            # the call itself is a site: it must be executable
+            f = node.func
+            if isinstance(f, ast.Attribute) and not (isinstance(f.value, ast.Name) and self.module is not None
+                                                    and f.value.id in self.module.imports and f.value.id not in st.env):
+                self.ev(f.value, st, spec)
+            for a in node.args:
+                self.ev(a.value if isinstance(a, ast.Starred) else a, st, spec)
+            for k in node.keywords:
+                self.ev(k.value, st, spec)
+            self.abstracted.append(dict(line=node.lineno, stmt='call ' + ast.unparse(node)[:90], reason=str(e)[:160]))
+            havoc_state(self, st, set())
+            return self.E.fresh('unk', ANY)
 
     def ev_Lambda(self, node, st, spec):
         self.err(node, 'lambda only as argument of known callee')
@@ -1180,14 +1204,44 @@ class FuncVerifier:
         raise EngineError('cannot iterate over %r (line %s)' % (t, getattr(node, 'lineno', '?')))
 
     # ------------------------------------------------------------ statements
+    def exec_block_strict(self, stmts, st):
+        for s in stmts:
+            m = getattr(self, 'ex_' + type(s).__name__, None)
+            if m is None:
+                self.err(s, 'statement %s not in subset' % type(s).__name__)
+            m(s, st)
+
+    def in_slice(self):
+        return bool(self.c is not None and self.c.opts.get('slice'))
+
     def exec_block(self, stmts, st):
         for s in stmts:
             if st.dead:
                 return
             m = getattr(self, 'ex_' + type(s).__name__, None)
-            if m is None:
-                self.err(s, 'statement %s not in subset' % type(s).__name__)
-            m(s, st)
+            if not self.in_slice():
+                if m is None:
+                    self.err(s, 'statement %s not in subset' % type(s).__name__)
+                m(s, st)
+                continue
+            # slice mode (DESIGN 2.7): a statement outside the subset is abstracted -- everything it can assign and the
+            # whole heap are havocked subject to the global invariants; site obligations inside it are still generated
+            if isinstance(s, (ast.If, ast.For, ast.While, ast.Try, ast.With, ast.Return)) and m is not None:
+                m(s, st)        # compound statements handle their unsupported parts themselves
+                continue
+            snap_env, snap_heap, snap_pc = dict(st.env), dict(st.heap), st.pc
+            nf, no = len(self.facts), len(self.obligations)
+            try:
+                if m is None:
+                    raise Unsupported('statement %s not in subset' % type(s).__name__)
+                m(s, st)
+            except (Unsupported, EngineError, z3.Z3Exception) as e:
+                st.env, st.heap, st.pc = snap_env, snap_heap, snap_pc
+                st.dead = False
+                del self.obligations[no:]
+                # facts learnt before the failure stay valid (they are guarded by the path condition)
+                from .slicing import abstract_statement
+                abstract_statement(self, s, st, str(e))
 
     def ex_Pass(self, s, st):
         pass
@@ -1222,6 +1276,15 @@ class FuncVerifier:
         dt = self.declared_local(name)
         if dt is not None and sv.ty != dt:
             sv = coerce(sv, dt)
+            if self.in_slice() and not self.binders:
+                # a value of (declared) object type is an object that exists
+                tf = self.typed_fact(sv.term, dt)
+                if not z3.is_true(tf):
+                    self.add_fact(st, tf)
+                if dt.strip_opt().is_obj:
+                    from .heap import ALLOC0
+                    acur = st.env['__alloc'].term if '__alloc' in st.env else ALLOC0
+                    self.add_fact(st, z3.Implies(sv.term != P.none, z3.Select(acur, sv.term)))
         st.env[name] = sv
 
     def assign_into(self, target, sv, st):
@@ -1292,8 +1355,21 @@ class FuncVerifier:
         arr = self.heap_array(st, attr, fty)
         st.heap[self.heap_key(attr, fty)] = z3.Store(arr, base.term, sv.term)
         st.heap_version += 1
+        if self.c is not None and self.c.site_stores:
+            for sattr, sname, sexpr in self.c.site_stores:
+                if sattr == attr:
+                    self.bound_env.append({'target': base, 'value': sv})
+                    try:
+                        g = self.truthy(self.ev(sexpr, st, True))
+                    finally:
+                        self.bound_env.pop()
+                    from .heap import site_ordinal
+                    stmt = getattr(self, '_cur_stmt', node)
+                    self.oblige(st, 'site[store .%s@%s]/inv[%s]' % (attr, site_ordinal(self, stmt, 'store .' + attr), sname),
+                                g, node)
 
     def ex_Assign(self, s, st):
+        self._cur_stmt = s
         sv = self.ev(s.value, st, False)
         for t in s.targets:
             self.assign_into(t, sv, st)
@@ -1331,7 +1407,8 @@ class FuncVerifier:
 
     def ex_Assert(self, s, st):
         c = self.truthy(self.ev(s.test, st, False))
-        self.oblige(st, 'safety[assert]', c, s)
+        if not self.in_slice():
+            self.oblige(st, 'safety[assert]', c, s)
         self.add_fact(st, c)
 
     def ex_Raise(self, s, st):
@@ -1372,6 +1449,9 @@ class FuncVerifier:
             st.env, st.heap = saved
 
     def ex_Return(self, s, st):
+        if self.in_slice():
+            from .slicing import slice_return
+            return slice_return(self, s, st)
         if s.value is None:
             sv = SV(P.none, NONE)
         else:
@@ -1391,6 +1471,9 @@ class FuncVerifier:
         st.pc = z3.BoolVal(False)
 
     def ex_If(self, s, st):
+        if self.in_slice():
+            from .slicing import slice_if
+            return slice_if(self, s, st)
         c = self.truthy(self.ev(s.test, st, False))
         s1 = st.copy(c)
         s2 = st.copy(simp_not(c))
@@ -1471,18 +1554,30 @@ class FuncVerifier:
         return '.'.join(str(k) for k in self._loop_path)
 
     def ex_While(self, s, st):
+        if self.in_slice():
+            from .slicing import slice_loop
+            return slice_loop(self, s, st)
         from .loops import exec_while
         exec_while(self, s, st)
 
     def ex_For(self, s, st):
+        if self.in_slice():
+            from .slicing import slice_loop
+            return slice_loop(self, s, st)
         from .loops import exec_for
         exec_for(self, s, st)
 
     def ex_Try(self, s, st):
+        if self.in_slice():
+            from .slicing import slice_try
+            return slice_try(self, s, st)
         from .loops import exec_try
         exec_try(self, s, st)
 
     def ex_With(self, s, st):
+        if self.in_slice():
+            from .slicing import slice_with
+            return slice_with(self, s, st)
         from .calls import exec_with
         exec_with(self, s, st)
 
